@@ -705,6 +705,7 @@ class Normalizer:
     need them (+inf absorption)."""
 
     def __init__(self, facts: "Facts" = None):
+        self.assumed: list = []  # (op, RF diff, truth): path assumptions on comparisons
         self.atoms = Atoms()
         self.facts = facts or Facts()
         self.facts.nz = self
@@ -769,10 +770,14 @@ class Normalizer:
         if k in ("min", "max"):
             return self._minmax(k, [self.rf(t[1]), self.rf(t[2])])
         if k == "ite":
-            c = self.rf(t[1])
             a, b = self.rf(t[2]), self.rf(t[3])
             if a.equals(b):
                 return a
+            if t[1][0] == "cmp" and self.assumed:
+                tv = self.truth_of(t[1])
+                if tv is not None:
+                    return a if tv else b
+            c = self.rf(t[1])
             return ratom(self.atoms.intern(("ite", c, a, b)))
         if k == "cmp":
             op, a, b = t[1], self.rf(t[2]), self.rf(t[3])
@@ -908,6 +913,66 @@ class Normalizer:
             return -1
         raise AnalysisError(f"cannot determine the sign of the coefficient of infinity")
 
+    # --- path assumptions on comparisons
+    def _canon_cmp(self, t):
+        op, a, b = t[1], self.rf(t[2]), self.rf(t[3])
+        if op in ("gt", "ge"):
+            op, a, b = {"gt": "lt", "ge": "le"}[op], b, a
+        return op, a - b
+
+    def assume(self, cmp_term, truth: bool) -> None:
+        if cmp_term[0] != "cmp":
+            return
+        op, d = self._canon_cmp(cmp_term)
+        self.assumed.append((op, d, bool(truth)))
+        if not hasattr(self, "_assumed_terms"):
+            self._assumed_terms = []
+        self._assumed_terms.append((cmp_term, bool(truth)))
+        self._memo.clear()
+
+    def truth_of(self, cmp_term):
+        """truth value of a comparison implied by the assumptions, or None"""
+        op, d = self._canon_cmp(cmp_term)
+        for op0, d0, t0 in self.assumed:
+            same = d.equals(d0)
+            opp = d.equals(-d0)
+            if not (same or opp):
+                continue
+            # sign knowledge about d0: lt T: d0<0 ; lt F: d0>=0 ; le T: d0<=0 ; le F: d0>0 ;
+            # eq T: d0==0 ; eq F / ne T: d0!=0
+            neg = pos = zero = None  # can d0 be negative / positive / zero
+            if op0 == "lt":
+                neg, pos, zero = (True, False, False) if t0 else (False, True, True)
+            elif op0 == "le":
+                neg, pos, zero = (True, False, True) if t0 else (False, True, False)
+            elif op0 in ("eq", "ne"):
+                is_eq = t0 if op0 == "eq" else (not t0)
+                neg, pos, zero = (False, False, True) if is_eq else (True, True, False)
+            if opp:
+                neg, pos = pos, neg
+            # now (neg, pos, zero) describe d
+            if op == "lt":
+                if not pos and not zero:
+                    return True
+                if not neg:
+                    return False
+            elif op == "le":
+                if not pos:
+                    return True
+                if not neg and not zero:
+                    return False
+            elif op == "eq":
+                if not neg and not pos:
+                    return True
+                if not zero:
+                    return False
+            elif op == "ne":
+                if not zero:
+                    return True
+                if not neg and not pos:
+                    return False
+        return None
+
     # --- convenience
     def eq(self, t1, t2) -> bool:
         return self.rf(t1).equals(self.rf(t2))
@@ -926,6 +991,12 @@ class Facts:
         self.poly_facts: list = []  # (term, sign)  resolved lazily
         self.nz: Optional[Normalizer] = None
         self._pf: Optional[list] = None
+
+    def clone(self) -> "Facts":
+        f = Facts()
+        f.rules = list(self.rules)
+        f.poly_facts = list(self.poly_facts)
+        return f
 
     def add_sym_rule(self, pred, sign: str):
         self.rules.append((pred, sign))
